@@ -257,6 +257,10 @@ class PullOffSuite(PairedSuite):
             evs = [ev(0, "global", [True] * n), ev(Fraction(3, 100), "user_entered", 11, "Alice")]
             for b in sorted(humans):
                 evs.append(ev(Fraction(5, 100) + Fraction(b, 10000), "assign", b, 11))
+            if rng.random() < 0.25:
+                # somebody says Stand next while nothing is being rung (say, a second time after the last touch stood): it
+                # means nothing, the Look to that follows starts a touch as usual
+                evs.append(ev(look_to - Fraction(rng.randint(2, 9), 100), "call", "Stand next"))
             evs.append(ev(look_to, "call", "Look to"))
             delay = Fraction(rng.choice([30, 100, 299, 320, 700, 1000, 4500]), 100) if human_leads else Fraction(3)
             t_lead = look_to + delay + Fraction(rng.randint(1, 99), 10 ** 5)
